@@ -301,9 +301,64 @@ fn shaped_key_pairs(rep: &Report) {
     rep.extra("shaped_key_pair_cases", json!(jobs.len()));
 }
 
+/// The FILE argument names a file through a symbolic link to a directory followed by `..` (the kernel resolves the link
+/// first: `lnk/../x` is NOT `./x`), through `./`, `a/../`, and a doubled slash: the round trip returns the bytes of the
+/// file the operating system resolves the name to. A different file of the same name sits where a textual clean-up of the
+/// name would point.
+fn cli_path_spellings(rep: &Report) {
+    use crate::fx::Party;
+    use crate::proc::{self, Cmd, Scratch};
+    let seed = rep.seed;
+    let alice = Party::new(seed, "alice", "alicepw");
+    let bob = Party::new(seed, "bob", "bobpw");
+    let kr = crate::fx::keyring(&[(&alice, true), (&bob, true)]);
+    let real = plaintext(seed ^ 0x1a7, 900);
+    let decoy = plaintext(seed ^ 0x1a8, 900);
+    let spellings = ["lnk/../plain.bin", "./elsewhere/plain.bin", "elsewhere/sub/../plain.bin", "elsewhere//plain.bin", "lnk/../../elsewhere/plain.bin", "lnk2/plain.bin"];
+    spellings.par_iter().for_each(|sp| {
+        rep.eval(1);
+        rep.nontrivial(format!("cli-path-spelling-{}", sp).as_bytes());
+        let attempt = || -> Result<(), String> {
+            let sc = Scratch::new();
+            std::fs::create_dir_all(sc.0.join("elsewhere/sub")).map_err(|e| format!("MACHINERY: {}", e))?;
+            sc.write("kr.txt", kr.as_bytes());
+            sc.write("elsewhere/plain.bin", &real);
+            sc.write("plain.bin", &decoy);
+            sc.write("elsewhere/sub/plain.bin", &decoy);
+            std::os::unix::fs::symlink("elsewhere/sub", sc.0.join("lnk")).map_err(|e| format!("MACHINERY: {}", e))?;
+            std::os::unix::fs::symlink("elsewhere", sc.0.join("lnk2")).map_err(|e| format!("MACHINERY: {}", e))?;
+            let o = proc::run(&Cmd::new(&["encrypt", sp, "-t", "bob", "-f", "alice", "-k", "kr.txt", "-o", "ct.ktl", "--env-pass"]).env("KESTREL_PASSWORD", "alicepw"), &sc.0);
+            o.well_behaved()?;
+            if !o.ok() {
+                return Err(format!("encrypt {} fails although the file exists: {}", sp, o.summary()));
+            }
+            let o = proc::run(&Cmd::new(&["decrypt", "ct.ktl", "-t", "bob", "-k", "kr.txt", "-o", "back.bin", "--env-pass"]).env("KESTREL_PASSWORD", "bobpw"), &sc.0);
+            o.well_behaved()?;
+            let back = sc.read("back.bin").unwrap_or_default();
+            if !o.ok() || back != real {
+                return Err(format!("encrypt {} then decrypt returns {}: {}", sp, if back == decoy { "the bytes of ANOTHER file of the same name (the one a textual clean-up of the path points to)".to_string() } else { format!("{} bytes that are not the file's", back.len()) }, o.summary()));
+            }
+            if !o.stderr.split(|c: char| !c.is_alphanumeric()).any(|t| t == "alice") {
+                return Err("the sender alice is not named".into());
+            }
+            Ok(())
+        };
+        if let Err(e) = attempt() {
+            if e.starts_with("MACHINERY") {
+                crate::report::machinery(&e);
+            }
+            if let Err(e2) = attempt() {
+                rep.violation("cli/path-spelling", json!({"kind":"cli-path","spelling":sp}), e2);
+            }
+        }
+    });
+    rep.extra("cli_path_spellings", json!(spellings.len()));
+}
+
 pub fn run(rep: &Report) {
     let seed = rep.seed;
     rep.set_rule("E-ENV: every tape of Read/Write answers within the stated budgets is executed on the real code; read partitions in tiny scope are exhaustive (every composition of L into parts <= cs). A case is one complete execution; distinct non-trivial = distinct ciphertext streams (i.e. distinct (keys, length, chunking)) that were produced by the real encryptor and decrypted again by the real decryptor");
+    rep.rule_add("CLI: FILE named through a symlinked directory followed by .., ./, a/../, // (a same-named decoy where a textual clean-up would point).");
     rep.rule_add("Every final-chunk length 0..=65536 at production chunk size round-trips through the two real chunk loops.");
     rep.rule_add("CLI round trips over {FILE arguments, stdin/stdout pipes, named pipes as FILE arguments} x {fresh, pre-existing longer output files}.");
     rep.assume("key and plaintext byte values come from seed-derived alphabets (4 identities, formula plaintexts)");
@@ -411,6 +466,7 @@ pub fn run(rep: &Report) {
     rep.extra("production_lengths", json!(lens));
     rep.sample(json!({"scope":"production","L":cs+1,"sender":"S","recipient":"R","rng":"seam","reads":"bounded menu {full,1,avail-1,ceil(avail/2)}","budget":"<=2 short answers in total (thorough), <=1 for L>=cs (quick)"}));
     crate::c06::chunk_length_sweep(rep, "C01", false);
+    cli_path_spellings(rep);
     rep.set_exhaustive(true);
 }
 
